@@ -253,10 +253,20 @@ CLAIMED["C06"] = dict(
               "uniqueness check",
     design="3/C06")
 
+CLAIMED["C20"] = dict(
+    text="STRUCTURAL CLAUSES ONLY - the arithmetic of the normalisation (float sums, int(w*1000) truncation: whether given decimals "
+         "are recognised as summing to one) is NOT decided; that needs numeric exploration, another technique family. Decided: "
+         "both normalisation sites replace the given weights whenever one is negative (the pinned tree did not: a genuine "
+         "defect, repaired) and replace them only under the sum test or the sign test; the replacement covers every stage, "
+         "with integer numerators int(S/n) and S-(n-1)*int(S/n) over one scale constant S used consistently (non-negative, "
+         "adding up to S exactly); the per-stage fraction is sum(L)/len(L) over one list of 0/1 indicators; the total is "
+         "accumulated only as weight[i] or fraction[i]*weight[i] over the finished / in-transit stage sets, which are selected "
+         "by complementary predicates with the current stage removed from both.",
+    technique="guard-existence and edge-dominance on the CFG, symbolic shape of the replacement numerators, constant agreement, "
+              "sibling cross-check of the two normalisation sites",
+    design="3/C20")
+
 NOT_APPLICABLE = {
-    "C20": "arithmetic over floating-point stage weights (sums, int(w*1000) truncation, fallback split) for every "
-           "stage count: no structural clause is a necessary condition; needs numeric exploration or a solver, i.e. "
-           "another technique family",
 }
 
 ALL = ["C%02d" % i for i in range(1, 21)]
